@@ -1,6 +1,7 @@
 (* C08 — converters.  Property theorems only. *)
-From Coq Require Import ZArith QArith Qround List Bool.
+From Coq Require Import String ZArith QArith Qround List Bool.
 From RV Require Import Base.PyNum Frame.Frame Convert.Cast Map.StackerSpec Proofs.CastProofs.
+From RV Require Import Generated.Tables Convert.Converters Proofs.ConvertersProofs.
 Import ListNotations.
 Open Scope Q_scope.
 
@@ -33,3 +34,99 @@ Example C08_example :
   | None => False
   end.
 Proof. vm_compute. split; reflexivity. Qed.
+
+(* ------------------------------------------------------------------------------------------------------------------
+   The 16 converters and convert_merge.  Their DESCRIPTIONS (Tables.convert.converters) are regenerated from the
+   Python source of the tree under test on every run; `conv_chart` / `conv_run` (Convert/Converters.v) give them
+   meaning through `cast`; `conv_okb` is the boolean well-formedness check of a description. *)
+
+(* Every description that passes conv_okb, applied to ANY source chart of its domain (chart_wfb: the source class's
+   lists are there with their declared columns and nothing missing in them - row labels, row order, extra columns and
+   therefore the history that produced the chart are arbitrary; the metadata expressions evaluate), yields a target
+   chart in which (chart_preserved):
+   - hits, holds, tempo points and - when both games have them - scroll velocities have one row per source row and,
+     row by row in the source's order, the source's offset / column / length / bpm / multiplier, the note column moved
+     only by the explicit shift argument of the converters that have one;
+   - the lists are exactly the target chart class's lists with exactly its declared columns;
+   - no value is missing in a column declared with a default other than NaN;
+   - every metadata assignment took effect, and the target's title / artist / creator / difficulty-name attribute
+     holds the text of the source's (re-encoded for BMS bytes, inside "Level <n>" for O2Jam levels, ...). *)
+Theorem C08_converter_preserves : forall d a sm k src oracle,
+  conv_okb d = true -> chart_wfb d a sm k src oracle = true ->
+  exists out, conv_chart d a sm k src oracle = Some out /\ chart_preserved d a sm k src oracle out.
+Proof. exact conv_chart_preserves. Qed.
+
+(* mapsets: one target chart per source chart, in order, each related to its source chart as above *)
+Theorem C08_one_chart_per_source_chart : forall d a src oracle,
+  conv_okb d = true -> srcset_wfb d a src oracle = true ->
+  exists outs, conv_run d a src oracle = Some outs
+    /\ length outs = length (ss_charts src)
+    /\ forall i c, nth_error (ss_charts src) i = Some c ->
+         exists out, nth_error outs i = Some out
+           /\ conv_chart d a (ss_meta src) i c (nth i oracle empty_chart) = Some out
+           /\ chart_preserved d a (ss_meta src) i c (nth i oracle empty_chart) out.
+Proof. exact conv_run_one_per_chart. Qed.
+
+(* whatever operations produced the source: two source charts with the same rows (labels differ) convert identically *)
+Theorem C08_converter_labels_irrelevant : forall d a sm k c c' oracle,
+  same_rows c c' -> conv_chart d a sm k c oracle = conv_chart d a sm k c' oracle.
+Proof. exact conv_chart_labels_irrelevant. Qed.
+
+(* THE OBLIGATION RE-CHECKED AGAINST THE CODE ON EVERY RUN: every converter found in the tree passes conv_okb ... *)
+Theorem C08_all_shipped_converters_ok :
+  forallb (fun p => conv_okb (snd p)) Tables.convert.converters = true.
+Proof. exact shipped_ok. Qed.
+(* ... they are the 16 converters and convert_merge ... *)
+Theorem C08_all_converters_listed :
+  map (fun p => cd_name (snd p)) Tables.convert.converters
+  = ["BMSToOsu"; "BMSToQua"; "BMSToSM"; "O2JToBMS"; "O2JToOsu"; "O2JToQua"; "O2JToSM"; "O2JToSM.merge"; "OsuToBMS";
+     "OsuToQua"; "OsuToSM"; "QuaToBMS"; "QuaToOsu"; "QuaToSM"; "SMToBMS"; "SMToOsu"; "SMToQua"]%string.
+Proof. vm_compute. reflexivity. Qed.
+(* ... the translator's name tables agree with the reference constants of the specification ... *)
+Theorem C08_names_agree :
+  names_agreeb reference_field_names Tables.convert.field_names
+  && names_agreeb reference_list_names Tables.convert.list_names
+  && names_agreeb reference_column_names Tables.convert.column_names = true.
+Proof. vm_compute. reflexivity. Qed.
+(* ... hence the theorem holds of each of them *)
+Theorem C08_shipped_converter_preserves : forall n d a src oracle,
+  In (n, d) Tables.convert.converters -> srcset_wfb d a src oracle = true ->
+  exists outs, conv_run d a src oracle = Some outs
+    /\ length outs = length (ss_charts src)
+    /\ forall i c, nth_error (ss_charts src) i = Some c ->
+         exists out, nth_error outs i = Some out
+           /\ chart_preserved d a (ss_meta src) i c (nth i oracle empty_chart) out.
+Proof. exact shipped_preserves. Qed.
+
+(* non-vacuity: a hand-written description of the shape of QuaToBMS (three casts, the shift, encoded title) applied to
+   a source whose hits carry labels 4,5 (as left by a filter), are out of time order and have an extra field 99 *)
+Definition example_desc : conv_desc :=
+  mkConv "Example" G_QUA G_BMS ShOne false true false
+    [(L_HITS, [0; 1]%Z); (L_HOLDS, [0; 1; 2]%Z); (L_BPMS, [0; 3]%Z)]
+    [(L_HITS, ([0; 1; 50]%Z, [RNum 0; RNum 0; RNum 0])); (L_HOLDS, ([0; 1; 2]%Z, [RNum 0; RNum 0; RNum 0]));
+     (L_BPMS, ([0; 3; 4]%Z, [RNum 0; RNum 0; RNum 4]))]
+    [F_TITLE; F_ARTIST; F_DIFFICULTY_NAME] [] [F_TITLE; F_ARTIST; F_VERSION] []
+    []
+    [SCast L_HITS L_HITS [0; 1; 50]%Z [RNum 0; RNum 0; RNum 0] [(0%Z, FromColumn 0%Z); (1%Z, FromColumn 1%Z)];
+     SCast L_HOLDS L_HOLDS [0; 1; 2]%Z [RNum 0; RNum 0; RNum 0] [(0%Z, FromColumn 0%Z); (1%Z, FromColumn 1%Z); (2%Z, FromColumn 2%Z)];
+     SCast L_BPMS L_BPMS [0; 3; 4]%Z [RNum 0; RNum 0; RNum 4] [(0%Z, FromColumn 0%Z); (3%Z, FromColumn 3%Z)];
+     SShift;
+     SMeta false F_TITLE (EEncodeSjis (EAttr false F_TITLE));
+     SMeta false F_ARTIST (EEncodeSjis (EAttr false F_ARTIST));
+     SMeta false F_VERSION (EEncodeSjis (EAttr false F_DIFFICULTY_NAME))]
+    [].
+Example C08_converter_example :
+  let src := mkChart
+    [(L_HITS, mkFrame [0; 1; 99]%Z [(4%Z, [CNum 2000; CNum 3; CStr 7]); (5%Z, [CNum 1000; CNum 2; CStr 8])]);
+     (L_HOLDS, mkFrame [0; 1; 2]%Z [(0%Z, [CNum 500; CNum 0; CNum 250])]);
+     (L_BPMS, mkFrame [0; 3; 4]%Z [(9%Z, [CNum 0; CNum 120; CNum 4])])]
+    [((false, F_TITLE), MText [65; 66]%Z); ((false, F_ARTIST), MText [67]%Z); ((false, F_DIFFICULTY_NAME), MText [72; 68]%Z)] in
+  let a := mkArgs 1 false [] in
+  conv_okb example_desc = true /\ chart_wfb example_desc a [] 0 src empty_chart = true
+  /\ conv_chart example_desc a [] 0 src empty_chart
+     = Some (mkChart
+         [(L_HITS, mkFrame [0; 1; 50]%Z [(0%Z, [CNum 2000; CNum 4; CNum 0]); (1%Z, [CNum 1000; CNum 3; CNum 0])]);
+          (L_HOLDS, mkFrame [0; 1; 2]%Z [(0%Z, [CNum 500; CNum 1; CNum 250])]);
+          (L_BPMS, mkFrame [0; 3; 4]%Z [(0%Z, [CNum 0; CNum 120; CNum 4])])]
+         [((false, F_VERSION), MBytes [72; 68]%Z); ((false, F_ARTIST), MBytes [67]%Z); ((false, F_TITLE), MBytes [65; 66]%Z)]).
+Proof. vm_compute. repeat split; reflexivity. Qed.
